@@ -5,10 +5,19 @@ CONSTANTS
   StoreFailed = FALSE
   PosKeyMode = "abs"
   IdxKeyMode = "abs"
+  ImgKeepMode = "none"
+  LookupsCap = 0
   MaxDepth = 5
   MaxDepthDmg = 4
   MaxDepthCollide = 4
-  Families = {"intact", "dmg", "collide"}
+  Families = {"intact", "dmg", "collide", "img", "fill", "scopes"}
+  ImgCounts = {2, 3, 4}
+  ImgFilterMode = "own"
+  MaxImgFilters = 3
+  FillKeys = 1500
+  FillLangs = 400
+  FillLookups = 600
+  MaxDepthScopes = 3
 SPECIFICATION Spec
 VIEW View
 INVARIANTS ModelExact EmitCase
